@@ -494,6 +494,15 @@ func driveC07(p *Pool, r *evid.Run) {
 		}
 		exploreAll(p, r, "C07", deep, 2, 0)
 	}
+	// 400 files: the STAT stream runs far ahead of the DATA answers (bound 0 around every policy)
+	var big []Scn
+	for _, pol := range []string{"run", "rund", "recv", "send", "rr"} {
+		for _, cp := range []int{1, 64} {
+			big = append(big, Scn{Kind: "refsend", Src: "fan400", Dst: "empty", Cap: cp, Policy: pol})
+		}
+	}
+	exploreAll(p, r, "C07", big, 0, 0)
+	r.Add("scenarios", int64(len(big)))
 	// end of stream before FIN at every packet position
 	roots := []Scn{{Kind: "refsend", Src: "c7src", Dst: "c7diff", Cap: 2, Policy: "run"}, {Kind: "refsend", Src: "c7src", Dst: "empty", Cap: 64, Policy: "recv"}}
 	rr := exploreAll(p, r, "C07", roots, 0, 0)
